@@ -14,6 +14,7 @@
 #include <unistd.h>
 #include <unordered_set>
 #include <chrono>
+#include <algorithm>
 
 using namespace tbfsim;
 
@@ -232,11 +233,14 @@ int main(int argc, char** argv) {
     const int K = schedulesPer(prop, tier);
     for (long n = from; n < count; ++n) {
         if (n % of != stripe) continue;
-        const uint64_t s = deriveSeed(base, uint64_t(n));
+        uint64_t s = deriveSeed(base, uint64_t(n));
+        // every batch contains the two scale scenarios (seed residues 1 and 2 modulo 4096, see gen.cpp); no other index is forced onto them
+        if (n == 0 || n == 1) s = (s & ~uint64_t(4095)) | uint64_t(n + 1);
         std::printf("START %llu %ld\n", (unsigned long long)s, n);
         std::fflush(stdout);
         Scenario sc = generate(prop, s, tier, plain);
-        for (int k = 0; k < K && !g_leakSeen; ++k) {
+        const bool scaleScenario = sc.src.size() > 20000;     // the two large scenarios of a batch: two schedules are enough
+        for (int k = 0; k < (scaleScenario ? std::min(K, 2) : K) && !g_leakSeen; ++k) {
             applySchedule(sc, k, plain);
             runOne(sc, false);
         }
